@@ -19,7 +19,7 @@ def genTbl : ValueText.Tbl :=
   { charMap := Gen.charMap, numMap := Gen.numMap, spaceClass := Gen.spaceClass, tokenClass := Gen.tokenClass,
     numClass := Gen.numClass, escapes := Gen.escapeTable, unescapes := Gen.unescapeTable, terminators := Gen.numberTerminators }
 
-def genCM : CM := { cmOfTbl genTbl [] with depthLimit := Gen.maxParseDepth, listNeedsMember := Gen.listNeedsMember }
+def genCM : CM := { cmOfTbl genTbl [] with depthLimit := Gen.maxParseDepth, listNeedsMember := Gen.listNeedsMember, condStrict := Gen.condStrict }
 
 /-- the function bodies the models were written against (hash of each, messages and comments stripped) -/
 def pinnedSkeleton : List (String × String) := [
